@@ -499,6 +499,63 @@ func (c14) Exec(script interface{}, c *core.Ctx) {
 			return
 		}
 	}
+	// --- the result is the caller's: a repeated call does not hand back what the caller
+	// meanwhile did to the first result, and a later call leaves earlier results alone
+	{
+		outSnap := make([]packet.Packet, len(out))
+		for i, p := range out {
+			outSnap[i] = *p
+		}
+		shared := false
+		for _, p := range out {
+			for _, q := range in {
+				if p == q {
+					shared = true // handing an input packet back as it is modifies nothing
+				}
+			}
+		}
+		var out2 []*packet.Packet
+		if !shared {
+			for _, p := range out {
+				p[3] = p[3]&0xF0 | (p[3]+5)&0x0F // the caller re-stamps the continuity counter
+				p[187] ^= 0x5A
+			}
+			if !c.Call("psi.FilterPMTPacketsToPids(same request again, first result edited)", func() { out2, _ = psi.FilterPMTPacketsToPids(in, keep) }) {
+				return
+			}
+			if len(out2) != len(outSnap) {
+				c.Fail("output_packets", "filter:repeated_call_other_packet_count", len(out2), len(outSnap))
+				return
+			}
+			for i, p := range out2 {
+				if p == nil || *p != outSnap[i] {
+					c.Fail("output_section", "filter:repeated_call_differs_from_first_result", i, "the packet the first call returned")
+					return
+				}
+			}
+			for i, p := range out {
+				*p = outSnap[i]
+			}
+			c.Probe("same_request_again_after_editing_the_result")
+		}
+		other := ref.PMTSpec{Program: 9, Version: 1, CurrentNext: true, PCRPID: 0x51, Streams: []ref.ES{{Type: 0x02, PID: 0x51}, {Type: 0x03, PID: 0x52, Descs: []ref.Desc{{Tag: 10, Body: []byte("deu\x00")}}}}}
+		op := parties.Packetise(ref.Payload(0, [][]byte{other.Section()}, 0), parties.Carrier{PID: pmtPid, Styles: []string{"ff"}})
+		var ops []*packet.Packet
+		for i := range op {
+			p := packet.Packet(op[i])
+			ops = append(ops, &p)
+		}
+		if !c.Call("psi.FilterPMTPacketsToPids(later call, earlier results still held)", func() { psi.FilterPMTPacketsToPids(ops, []int{0x51}) }) {
+			return
+		}
+		for i := range outSnap {
+			if *out[i] != outSnap[i] || (out2 != nil && *out2[i] != outSnap[i]) {
+				c.Fail("output_packets", "filter:result_changed_by_a_later_call", i, "the packet as returned")
+				return
+			}
+		}
+		c.Probe("result_held_across_a_later_call")
+	}
 	// --- leg 2: re-mux and read back
 	if len(want.Streams) > 0 {
 		var q []parties.Pkt
@@ -606,9 +663,37 @@ removal:
 				}
 			}
 		})
-		if !okq {
+		if !okq || c.Failed() {
 			return
 		}
+		// the same payload decoded once more: removing streams from one decoded table is no
+		// business of the next one, nor the other way round
+		var pm2 psi.PMT
+		if !c.Call("psi.NewPMT(same payload again)", func() { pm2, err = psi.NewPMT(append([]byte(nil), payload...)) }) {
+			return
+		}
+		if err != nil {
+			c.Fail("remove", "remove:newpmt_error_second_time", err, nil)
+			return
+		}
+		if d := comparePMT(c, pm2, s.PMT); d != "" {
+			if d != "panic" {
+				c.Fail("remove", "remove:decoded_again_after_removal:"+clauseOf(d), d, "the whole PMT")
+			}
+			return
+		}
+		if len(s.PMT.Streams) > 0 {
+			if !c.Call("pmt.RemoveElementaryStreams(second table)", func() { pm2.RemoveElementaryStreams([]int{s.PMT.Streams[0].PID}) }) {
+				return
+			}
+		}
+		if d := comparePMT(c, pm, left); d != "" {
+			if d != "panic" {
+				c.Fail("remove", "remove:first_table_changed_by_the_second:"+clauseOf(d), d, "the other streams, in order")
+			}
+			return
+		}
+		c.Probe("same_payload_decoded_again_after_removal")
 	}
 }
 
